@@ -10,7 +10,7 @@ from hypothesis.stateful import RuleBasedStateMachine, initialize, rule
 from vmm import util
 
 ID = 'C08'
-RULE = ('RuleBasedStateMachine histories over {set x(i), set y(i) (clears x) - from the pool or from a work buffer the caller overwrites right after the assignment -, clear x, read q} on one TBRMMDiagnostics '
+RULE = ('RuleBasedStateMachine histories over {set x(i), set y(i) (clears x) - from the pool (float64; x also as int64 / list of ints / float32) or from a work buffer the caller overwrites right after the assignment -, clear x, read q} on one TBRMMDiagnostics '
         'built from a drawn parameter object and a pool of 6 series (two highly correlated, one noise, one trending, one '
         'with a level shift in the last n_test points, one constant); q in {corr, required_impact, pretestfit, bbtest, '
         'dwtest, aatest, corr_test, tests_ok, tbrfit, x, y}; every read is compared with the same read on a fresh object '
@@ -70,6 +70,8 @@ class Runner:
     self.other.x = self.pools[0][self.oxi]
     self.other_used = False
     self.buffers = False
+    self.typed = False
+    self.xval = None
     self.viol = []
     self.read_before_write = set()
     self.written_after = set()
@@ -82,7 +84,7 @@ class Runner:
     par = tbrmmdesignparameters.TBRMMDesignParameters(**self.spec['params'])
     d = self.D(self.pool[self.yi].copy(), par)
     if self.xi is not None:
-      d.x = self.pool[self.xi].copy()
+      d.x = self.pool[self.xi].copy() if getattr(self, 'xval', None) is None else self.xval.copy()
     return d
 
   @staticmethod
@@ -110,8 +112,18 @@ class Runner:
   def step(self, op):
     self.spec['ops'].append(op)
     kind = op[0]
-    if kind == 'set_x':
+    if kind == 'set_x' and len(op) > 2 and op[2] in ('int64', 'float32', 'int-list'):
+      # the same series in another container / dtype: whole numbers as int64 or as a list of ints, or single precision
       self.xi = op[1]
+      base = self.pool[self.xi]
+      val = np.round(base).astype(np.int64) if op[2] == 'int64' else ([int(v) for v in np.round(base)] if op[2] == 'int-list' else base.astype(np.float32))
+      self.xval = np.array(val)
+      self.real.x = val
+      self.typed = True
+      self._wrote()
+    elif kind == 'set_x':
+      self.xi = op[1]
+      self.xval = None
       if len(op) > 2 and op[2] == 'buf':
         # the caller hands over a work buffer and overwrites it afterwards: the object keeps the values it was given
         buf = self.pool[self.xi].copy()
@@ -125,6 +137,7 @@ class Runner:
     elif kind == 'set_y':
       self.yi = op[1]
       self.xi = None
+      self.xval = None
       self.which = op[2] if len(op) > 2 else 0
       self.pool = self.pools[self.which]
       if len(op) > 3 and op[3] == 'buf':
@@ -150,6 +163,7 @@ class Runner:
       self._wrote()
     elif kind == 'clear_x':
       self.xi = None
+      self.xval = None
       self.real.x = None
       self._wrote()
     elif kind == 'other':
@@ -220,6 +234,8 @@ class Runner:
       cls.append('second-live-object')
     if self.buffers:
       cls.append('caller-overwrote-its-buffer')
+    if self.typed:
+      cls.append('int-or-float32-series')
     if self.n - self.spec['params']['n_test'] < 3:
       cls.append('aatest-undefined')
     if self.spec.get('n2', self.n) != self.n and any(o[0] == 'set_y' and len(o) > 2 and o[2] == 1 for o in self.spec['ops']):
@@ -277,6 +293,14 @@ def machine(tier, sink):
     @rule(i=st.integers(0, 4), which=st.integers(0, 1))
     def set_y(self, i, which):
       self.r.step(['set_y', i, which])
+
+    @rule(i=st.sampled_from([0, 1, 2, 3, 4, 6, 7]), kind=st.sampled_from(['int64', 'float32', 'int-list']), then=st.sampled_from([None, 0, 1, 2, 3, 4]))
+    def set_x_other_dtype(self, i, kind, then):
+      self.r.step(['set_x', i, kind])
+      if then is not None:
+        self.r.step(['set_x', then])          # ... followed at once by an ordinary float64 series
+        self.r.step(['read', 'corr'])
+        self._after()
 
     @rule(i=st.sampled_from([0, 1, 2, 3, 4, 6, 7]))
     def set_x_from_buffer(self, i):
